@@ -61,6 +61,8 @@ PROP = [  # (subject fragment, property ids, key that used to be reported)
  ("a hunk header that git coloured was truncated at --max-line-length", 'C08', "c08:equal (coloured and plain input differ: the coloured hunk header is cut at a small --max-line-length; found from a sub-agent's note)"),
  ("lines that are not valid UTF-8 kept their CR and were cut at a byte position", 'C09,C08,C04', "c09:malformed / sgr-leak (a line with an invalid byte beyond --max-line-length is cut inside an escape sequence); CR kept in coloured CRLF lines with an invalid byte (found from two sub-agents' notes)"),
  ("unused variable left behind by the side-by-side wrapping fix", 'C07', "(follow-up of the fix 8ed6a01: compiler warning only)"),
+ ("blame commit hyperlink was padded and cut as if it were part of the hash", 'C09,C19', "c09:malformed:blame / c19:not-transparent:blame (--hyperlinks on a terminal with a width or precision on {commit}; found from two sub-agents' notes)"),
+ ("a commit hyperlink could be inserted inside the URL of a hyperlink the line already had", 'C09', "c09:malformed:passthrough (control character inside OSC; the terminal model did not flag an ESC inside an OSC string before)"),
  ("lines differing by a zero-width character were paired at --max-line-distance 0", 'C06', "c06:distance-0-pairing / :sbs ('<U+0308>key' paired with ' key   ' at distance 0; found by the thorough tier)"),
 ]
 log = subprocess.run(['git', '-C', '/repo', 'log', '--format=%H%x09%s', '--reverse'], stdout=subprocess.PIPE).stdout.decode().splitlines()
